@@ -35,6 +35,11 @@ def run_property(prop: str, tier: str, repo: str, evidence_dir: str, write_evide
     if tier == 'thorough' and selftest:
         from sfa import selftest as st_mod
         st = st_mod.run_for_property(prop, repo)
+        # behaviour-preserving rewrites (alpha-renaming, keyword reordering, pass insertion) of the analysed functions must stay silent
+        from sfa import benign
+        fz = benign.run_for_property(prop, repo, seed=int(os.environ.get('VERIF_SEED', '0') or 0), budget=int(os.environ.get('SFA_BENIGN_BUDGET', '32')))
+        st['benign_fuzz'] = {k: v for k, v in fz.items() if k != 'results'}
+        st['failed'] = list(st.get('failed', [])) + [f'benign edit raised an alarm: {x}' for x in fz['false_alarms']]
     seed = int(os.environ.get('VERIF_SEED', '0') or 0)
     rc = finish(ctx, seed, evidence_dir, mod.LEVEL_TEXT, selftest=st, write_evidence=write_evidence)
     if st is not None and st.get('failed'):
